@@ -883,7 +883,18 @@ class E2EBench(Bench):
         self.prefix = d.get_prefix()
         w.idle_hook = self._bridge
         done = w.loop.create_future()
-        w.nodes["D"].run(d.join_swarm, svc, 1, done.set_result, seeding=False)
+        self.callback_marker = b"c04-first-e2e-data-sent-from-the-callback" + bytes([self.salt % 251])
+        self.callback_wire: list = []
+
+        def on_e2e(address) -> None:  # noqa: ANN001
+            # the application uses its new end-to-end circuit at once, from inside the callback that announces it
+            n0 = len(w.wire_log)
+            c = next((c for c in d.circuits.values() if c.ctype == CIRCUIT_TYPE_RP_DOWNLOADER), None)
+            if c is not None:
+                d.send_data(c.hop.address, c.circuit_id, ("0.0.0.0", 0), ("0.0.0.0", 0), self.callback_marker)
+            self.callback_wire = list(w.wire_log[n0:])
+            done.set_result(address)
+        w.nodes["D"].run(d.join_swarm, svc, 1, on_e2e, seeding=False)
         w.nodes["S"].run(s_.join_swarm, svc, 1, None)
         w.restrict("S", ["N1", "E"])                                  # introduction circuit S -> N1 -> E
         w.drive(w.nodes["S"].run(s_.create_introduction_point, svc), horizon=30)
@@ -903,6 +914,15 @@ class E2EBench(Bench):
         w.flush()
         if not done.done():
             raise HarnessError("e2e set-up: the end-to-end circuit was not linked")
+        self.callback_findings = []
+        got = [data for _c, _o, data in s_.raw_log if data == self.callback_marker]
+        if len(got) != 1:
+            self.callback_findings.append(("e2e-callback-send:not-delivered",
+                                           f"data sent over the new end-to-end circuit from inside the join_swarm callback "
+                                           f"reached the seeder {len(got)} times (expected once, byte-identical)"))
+        if any(self.callback_marker in dg.data for dg in self.callback_wire):
+            self.callback_findings.append(("e2e-callback-send:plaintext-on-wire",
+                                           "the payload sent from inside the join_swarm callback is visible on a link"))
         w.idle_hook = None
         w.run_for(6.0)
         ce = [c for c in d.circuits.values() if c.ctype == CIRCUIT_TYPE_RP_DOWNLOADER]
@@ -1393,6 +1413,9 @@ def run_item(h, gs: list, seed: int, thorough: bool) -> dict:
                         out["evals"] += 1
                         out["aborted"] += len(gs) - gi
                         return out
+                    if getattr(bench, "callback_findings", None):
+                        note(list(bench.callback_findings), ["e2e-callback-send", 0, "v4", "f", 0, None])
+                        bench.callback_findings = []
                 try:
                     v, outcome = bench.run_case(case)
                 except Exception as e:  # noqa: BLE001
